@@ -19,6 +19,6 @@ func main() {
 		Formats: []conslog.Format{conslog.FTxn, conslog.FTxn, conslog.FCtrl},
 		// corpus: two aborted transactions in flight, abort then commit by one id, back-to-back aborts, three producers,
 		// a lone aborted transaction between plain batches, an abort marker without data
-		Corpus: []string{"T1 T2 A1 A2 T1 C1 N", "T1 A1 T1 A1 T1 C1", "T1 T2 T3 A2 C1 A3 N T2 C2", "N T1 N A1 N", "A1 T1 N C1 T2 A2 T2 A2"},
+		Corpus:    []string{"T1 T2 A1 A2 T1 C1 N", "T1 A1 T1 A1 T1 C1", "T1 T2 T3 A2 C1 A3 N T2 C2", "N T1 N A1 N", "A1 T1 N C1 T2 A2 T2 A2"},
 		CorpusPer: 30})
 }
